@@ -103,6 +103,15 @@ fn make_block(scn: &Scenario, payer: &Key, touch1: &Key, touch2: &Key, other: &K
         }
         input.block_id = 3;
         input.tx_ordinal = i as u64;
+        if scn.keep[i] && scn.spend_from_key && i % 2 == 0 {
+            // several senders: the listed key is not the first input
+            let mut first = Slip::default();
+            first.public_key = payer.public;
+            first.amount = 7 + i as u64;
+            first.block_id = 2;
+            first.tx_ordinal = i as u64;
+            tx.add_from_slip(first);
+        }
         tx.add_from_slip(input);
         let mut out = Slip::default();
         out.public_key = if scn.keep[i] && !scn.spend_from_key { touch.public } else { other.public };
